@@ -35,12 +35,24 @@ import (
 
 	"keepverif/harness/hx"
 
+	"github.com/ipfs/go-log"
+
 	"github.com/keep-network/keep-core/pkg/net"
 	"github.com/keep-network/keep-core/pkg/net/libp2p"
 	"github.com/keep-network/keep-core/pkg/net/local"
 	"github.com/keep-network/keep-core/pkg/net/retransmission"
 	"github.com/keep-network/keep-core/pkg/operator"
 )
+
+var logger = log.Logger("verif-c16")
+
+// sentinel strategy: counts the ticks the ticker loop has started to handle
+type counting struct{ n int64 }
+
+func (c *counting) Tick(fn retransmission.RetransmitFn) error {
+	atomic.AddInt64(&c.n, 1)
+	return nil
+}
 
 // ---- generator ------------------------------------------------------------
 
@@ -442,6 +454,11 @@ func execChan(f []string) (string, string) {
 		return "PANIC backend " + err.Error(), "bad"
 	}
 	sendCtx, sendCancel := context.WithCancel(context.Background())
+	// A tick is handled asynchronously by Ticker.start: the sentinel's count tells that the loop
+	// holds the handler lock for tick n, so a retransmission scheduled afterwards is not part of it.
+	sentinel := &counting{}
+	retransmission.ScheduleRetransmissions(sendCtx, logger, ticker, func() error { return nil }, sentinel)
+	waitFor(func() bool { return retransmission.VerifC17HandlerCount(ticker) == 1 })
 	var tapCount int64
 	tapDone := make(chan struct{})
 	go func() {
@@ -555,12 +572,16 @@ func execChan(f []string) (string, string) {
 			tags["send"] = true
 		case 't':
 			// ScheduleRetransmissions registers its ticker handler asynchronously
-			if !waitFor(func() bool { return int64(retransmission.VerifC17HandlerCount(ticker)) == sends }) {
+			if !waitFor(func() bool { return int64(retransmission.VerifC17HandlerCount(ticker)) == sends+1 }) {
 				stall = where + "-schedule"
 				break
 			}
 			tickNo++
 			ticks <- tickNo
+			if !waitFor(func() bool { return atomic.LoadInt64(&sentinel.n) == int64(tickNo) }) {
+				stall = where + "-sentinel"
+				break
+			}
 			expected += sends
 			waitTap(where)
 			if sends > 0 {
